@@ -153,9 +153,18 @@ theorem cexpr_fromCtx {env : Env} {file : AFile} {G : List String} {Γ : Ctx} {K
     simp only [fragC, Bool.or_eq_true] at h
     cases f with
     | var name fty =>
-      rcases h with h | h
-      case inr =>
+      rcases h with (h | h) | h
+      case inl.inr =>
         obtain ⟨helper, hty, tys, hshape, hcs, hargs⟩ := refcall_shape h
+        obtain ⟨h3, h4⟩ := imms_fromCtx env (calleesC (.call (.var name fty) args ty)) hargs
+        rw [hshape]
+        simp only [varsUsed, noBlockExpr, mem_uni, Bool.and_eq_true, List.mem_singleton]
+        refine ⟨fun y hy => ?_, trivial, h4⟩
+        rcases hy with rfl | hy
+        · exact Or.inr (by rw [hcs]; exact List.mem_singleton.mpr rfl)
+        · exact h3 y hy
+      case inr =>
+        obtain ⟨helper, tys, hshape, hcs, hargs⟩ := arrcall_shape h
         obtain ⟨h3, h4⟩ := imms_fromCtx env (calleesC (.call (.var name fty) args ty)) hargs
         rw [hshape]
         simp only [varsUsed, noBlockExpr, mem_uni, Bool.and_eq_true, List.mem_singleton]
@@ -182,8 +191,8 @@ theorem cexpr_fromCtx {env : Env} {file : AFile} {G : List String} {Γ : Ctx} {K
       rcases hy with rfl | hy
       · exact Or.inr (by rw [hcs]; exact List.mem_singleton.mpr rfl)
       · exact h3 y hy
-    | prim p t => simp [callOK, refCallOK] at h
-    | tag i t => simp [callOK, refCallOK] at h
+    | prim p t => simp [callOK, refCallOK, arrCallOK] at h
+    | tag i t => simp [callOK, refCallOK, arrCallOK] at h
   | ite c t e ty => simp [isCtl] at hctl
   | «while» c b ty => simp [isCtl] at hctl
   | matchE s arms d ty => simp [isCtl] at hctl
@@ -218,7 +227,15 @@ theorem cexpr_fromCtx {env : Env} {file : AFile} {G : List String} {Γ : Ctx} {K
       simp only [compileCExpr, varsUsed, noBlockExpr]
       exact ⟨h1, h2⟩
     | _ => exact absurd h (by simp)
-  | array items ty => simp [fragC] at h
+  | array items ty =>
+    simp only [fragC] at h
+    cases ty with
+    | array len e =>
+      simp only [Bool.and_eq_true] at h
+      obtain ⟨h1, h2⟩ := imms_fromCtx env (calleesC (.array items (.array len e))) h.1
+      simp only [compileCExpr, varsUsed, noBlockExpr]
+      exact ⟨h1, h2⟩
+    | _ => exact absurd h (by simp)
   | cget e c idx ty =>
     cases c with
     | enum tn vn' vi =>
@@ -753,7 +770,8 @@ theorem scopeC {env : Env} {file : AFile} {G : List String} {D : Names} :
     rw [compileTail_simple env m st (by rfl)]; exact scopeC_simple m _ Γ K sc rfl hfrag hctx htgt
   | .tuple items ty, m, st, Γ, K, sc, hfrag, hctx, hdecl, htgt => by
     rw [compileTail_simple env m st (by rfl)]; exact scopeC_simple m _ Γ K sc rfl hfrag hctx htgt
-  | .array items ty, m, st, Γ, K, sc, hfrag, _, _, _ => by simp [fragC] at hfrag
+  | .array items ty, m, st, Γ, K, sc, hfrag, hctx, hdecl, htgt => by
+    rw [compileTail_simple env m st (by rfl)]; exact scopeC_simple m _ Γ K sc rfl hfrag hctx htgt
   | .cget e c idx ty, m, st, Γ, K, sc, hfrag, hctx, hdecl, htgt => by
     rw [compileTail_simple env m st (by rfl)]; exact scopeC_simple m _ Γ K sc rfl hfrag hctx htgt
   | .toDyn tr forTy e ty, m, st, Γ, K, sc, hfrag, _, _, _ => by simp [fragC] at hfrag
